@@ -9,9 +9,16 @@
 (*            hk      1 iff a hash of this object has been observed        *)
 (*            hid     the observed hash (a record; NoHash when hk = 0)     *)
 (*   dict : the dict under test, sequence of [key (object index), v]       *)
+(*   cmemo: class-level state - for which undecorated classes the generated*)
+(*          functions have already run (and, A-layer, what they decided);   *)
+(*          the order of first use of the classes is part of a history     *)
 (*   last : the observation produced by the last step [ev, r, chk]         *)
 (*                                                                         *)
 (* Every public operation is an event ev = [op, i, j, fn, md, v, spec];    *)
+(* a New event says how the object comes to be in this interpreter (md):   *)
+(* "" built by its constructor here; "pk" / "pkh" / "pkc" built in ANOTHER *)
+(* interpreter process (other str-hash seed), there left alone / hashed /  *)
+(* only its nested nodes hashed, pickled, and unpickled here.              *)
 (* what it shows is a result r = [k, b, h, exc, v, proj] where proj is the *)
 (* projection of every live object after the step [tree, hashed, h].       *)
 (*                                                                         *)
@@ -30,22 +37,25 @@
 EXTENDS C01_Values
 CONSTANTS HashMode,   \* "perfect" | "real" | "collide"
           Bug         \* "none" | "DropField" | "StaleHash" | "CopyKeepsHash" | "NaNIdentity"
-VARIABLES objs, dict, last
+                      \* | "ClassMemo" | "PickleKeepsHash"
+VARIABLES objs, dict, last, cmemo
 
 NoHash == [t |-> "None"]
-S0 == [objs |-> << >>, dict |-> << >>]
-Cur == [objs |-> objs, dict |-> dict]
+S0 == [objs |-> << >>, dict |-> << >>, cm |-> {}]
+Cur == [objs |-> objs, dict |-> dict, cm |-> cmemo]
 
 Ev(op, i, j, fn, md, v, spec) ==
     [op |-> op, i |-> i, j |-> j, fn |-> fn, md |-> md, v |-> v, spec |-> spec]
 EvNew(spec)        == Ev("New", 0, 0, "", "", 0, spec)
+EvNewVia(spec, md) == Ev("New", 0, 0, "", md, 0, spec)          \* md: "" | pk | pkh | pkc
+ArrivalModes == {"", "pk", "pkh", "pkc"}
 EvHash(i)          == Ev("Hash", i, 0, "", "", 0, NoneV)
 EvEq(i, j)         == Ev("Eq", i, j, "", "", 0, NoneV)
 EvNe(i, j)         == Ev("Ne", i, j, "", "", 0, NoneV)
 \* setattr(o_i, fn, o_j.fn) when j > 0 (o_j of the same class), else setattr(o_i, fn, 77)
 EvSetAttr(i, j, fn) == Ev("SetAttr", i, j, fn, "", 0, NoneV)
 EvDelAttr(i, fn)   == Ev("DelAttr", i, 0, fn, "", 0, NoneV)
-EvCopy(i, md)      == Ev("Copy", i, 0, "", md, 0, NoneV)       \* md: copy | deepcopy
+EvCopy(i, md)      == Ev("Copy", i, 0, "", md, 0, NoneV)       \* md: copy | deepcopy | pickle
 EvReplace(i, j, fn) == Ev("Replace", i, j, fn, "", 0, NoneV)   \* replace(o_i, fn = o_j.fn)
 EvTouch(i, md)     == Ev("Touch", i, 0, "", md, 0, NoneV)      \* md: stock rebuild cim str repr deps
 EvPut(i, v)        == Ev("DictPut", i, 0, "", "", v, NoneV)
@@ -83,12 +93,49 @@ Judgeable(S, ev, r) ==
     /\ ev.op \in {"New", "Hash", "Eq", "Ne", "SetAttr", "DelAttr", "Copy", "Replace", "Touch",
                   "DictPut", "DictGet"}
     /\ ev.op # "New" => ValidIdx(S, ev.i)
+    \* whether an expression can be pickled at all is C17's business
+    /\ (ev.op = "New" /\ ev.md # "") => r.k = "new"
+    /\ (ev.op = "Copy" /\ ev.md = "pickle") => r.k = "new"
     /\ ev.op \in {"Eq", "Ne", "Replace"} => ValidIdx(S, ev.j)
     /\ (ev.op = "SetAttr" /\ ev.j # 0) => ValidIdx(S, ev.j)
     /\ IF Creates(ev) /\ r.k = "new" THEN Len(r.proj) = Len(S.objs) + 1
                                      ELSE Len(r.proj) = Len(S.objs)
     /\ \A k \in 1..Len(r.proj) : r.proj[k].tree.t = "N" /\ Decidable(r.proj[k].tree)
     /\ \A k \in 1..Len(r.proj) : Hashable(r.proj[k].tree)
+
+(***************************************************************************)
+(* Class-level state.  An undecorated class is *used* when the generated   *)
+(* __hash__ / __eq__ of its decorated ancestor runs on one of its          *)
+(* instances.  cm holds one record [c, leg] per used undecorated class:    *)
+(* leg = what the code decided about "does this class use extra legacy     *)
+(* init args?".  The correct decision depends on the class alone; with     *)
+(* Bug = "ClassMemo" the decision is remembered per class but looked up    *)
+(* the way Python looks up attributes - through the base classes - so a    *)
+(* class first used after one of its undecorated bases takes that base's   *)
+(* answer.  (Only the classes of tracked objects are followed, not those   *)
+(* of nodes nested in their fields.)                                       *)
+(***************************************************************************)
+IsLegacyChild(cls) == TmplOf(cls) = "legacy-child"
+HasRec(cm, cls) == \E m \in cm : m.c = cls
+RecOf(cm, cls)  == CHOOSE m \in cm : m.c = cls
+\* the answer the code works with for an instance of cls in class state cm
+LegacyDecision(cm, cls) ==
+    IF Bug # "ClassMemo" THEN IsLegacyChild(cls)
+    ELSE LET ch   == UndecoChain(cls)
+             hits == { k \in 1..Len(ch) : HasRec(cm, ch[k]) }
+         IN IF hits = {} THEN IsLegacyChild(cls)
+            ELSE RecOf(cm, ch[CHOOSE k \in hits : \A k2 \in hits : k <= k2]).leg
+\* tracked objects on which an event runs the generated hash / eq
+UsedObjs(S, ev) ==
+    CASE ev.op \in {"Hash", "DictPut", "DictGet"} -> {ev.i}
+      [] ev.op \in {"Eq", "Ne"} ->
+            IF ev.i # ev.j /\ S.objs[ev.i].tree.cls = S.objs[ev.j].tree.cls THEN {ev.i, ev.j} ELSE {}
+      [] ev.op = "Touch" /\ ev.md = "cim" -> {ev.i}
+      [] OTHER -> {}
+CmAfter(S, ev) ==
+    LET C == { S.objs[k].tree.cls : k \in UsedObjs(S, ev) } IN
+    S.cm \cup { [c |-> c, leg |-> LegacyDecision(S.cm, c)] :
+                  c \in { c2 \in C : Undecorated(c2) /\ ~HasRec(S.cm, c2) } }
 
 (***************************************************************************)
 (* Check: "OK", "SKIP", or the name of the first clause the observation    *)
@@ -106,7 +153,8 @@ PostObjs(S, ev, r) ==
 
 Post(S, ev, r) ==
     [objs |-> PostObjs(S, ev, r),
-     dict |-> IF ev.op = "DictPut" /\ r.k = "ok" THEN DictAfterPut(S, ev.i, ev.v) ELSE S.dict]
+     dict |-> IF ev.op = "DictPut" /\ r.k = "ok" THEN DictAfterPut(S, ev.i, ev.v) ELSE S.dict,
+     cm   |-> CmAfter(S, ev)]
 
 ImmutableStep(S, ev, r) ==
     /\ \A k \in 1..Len(S.objs) : r.proj[k].tree = S.objs[k].tree
@@ -140,8 +188,16 @@ HashFn(tree) ==
       [] HashMode = "real"    -> RealHash(tree)
       [] HashMode = "collide" -> [t |-> "C"]
 
+\* what the generated hash of a tracked object looks at: all init args, unless the class
+\* state says "not legacy" for a class that is (Bug = "ClassMemo"): then only the
+\* dataclass fields of the decorated ancestor
+EffTree(cm, t) ==
+    IF IsLegacyChild(t.cls) /\ ~LegacyDecision(cm, t.cls)
+    THEN [t EXCEPT !.f = SubSeq(t.f, 1, OwnCount(t.cls))] ELSE t
+\* a hash computed in another interpreter process (other str-hash seed)
+ForeignHash(tree) == [t |-> "F", h |-> HashFn(tree)]
 \* generated <cls>_hash / Expression.__hash__: return the cached value if there is one
-ImplHash(o) == IF o.hashed = 1 THEN o.hid ELSE HashFn(o.tree)
+ImplHash(cm, o) == IF o.hashed = 1 THEN o.hid ELSE HashFn(EffTree(cm, o.tree))
 
 \* == on field values as the interpreter performs it: containers elementwise, nested
 \* expression nodes through the generated __eq__ again (no identity, nothing cached)
@@ -182,11 +238,11 @@ ImplEq(S, i, j) ==
     LET a == S.objs[i].tree  b == S.objs[j].tree IN
     IF i = j THEN TRUE
     ELSE IF TmplOf(a.cls) # "legacy" /\ a.cls # b.cls THEN FALSE
-    ELSE IF ImplHash(S.objs[i]) # ImplHash(S.objs[j]) THEN FALSE
+    ELSE IF ImplHash(S.cm, S.objs[i]) # ImplHash(S.cm, S.objs[j]) THEN FALSE
     ELSE IF TmplOf(a.cls) = "legacy" THEN
          a.cls = b.cls /\ Len(a.f) = Len(b.f) /\ \A k \in 1..Len(a.f) : ImplValEq(a.f[k], b.f[k])
     ELSE IF Bug = "NaNIdentity" /\ a.cls = "NaN" THEN FALSE
-    ELSE IF TmplOf(a.cls) = "legacy-child" THEN
+    ELSE IF IsLegacyChild(a.cls) /\ LegacyDecision(S.cm, a.cls) THEN
          Len(a.f) = Len(b.f) /\ \A k \in 1..Len(a.f) : ImplValEq(a.f[k], b.f[k])
     ELSE \A k \in 1..ComparedFields(a.cls) : ImplValEq(a.f[k], b.f[k])
 
@@ -207,9 +263,9 @@ AttrRaises(cls, fn) ==
     IF Bug = "StaleHash" THEN FALSE
     ELSE FieldIndex(cls, fn) <= OwnCount(cls)
 
-WithHashed(os, hs) ==
+WithHashed(cm, os, hs) ==
     [k \in 1..Len(os) |-> IF k \in hs
-                          THEN [os[k] EXCEPT !.hashed = 1, !.hk = 1, !.hid = ImplHash(os[k])]
+                          THEN [os[k] EXCEPT !.hashed = 1, !.hk = 1, !.hid = ImplHash(cm, os[k])]
                           ELSE os[k]]
 Proj(os) == [k \in 1..Len(os) |-> [tree |-> os[k].tree, hashed |-> os[k].hashed,
                                    h |-> IF os[k].hashed = 1 THEN os[k].hid ELSE NoHash]]
@@ -224,8 +280,9 @@ AnyNode(v, C) ==
       [] v.t = "M" -> \E i \in 1..Len(v.kv) : AnyNode(v.kv[i].v, C)
       [] OTHER -> FALSE
 \* classes no stock mapper has a handler for (nor for any of their bases)
-NoHandler == {"URoot", "UChild", "ULeg", "ULegChild", "UPlain", "UInit", "Leaf", "AlgebraicLeaf", "QuotientBase"}
-VarLike   == {"Variable", "UVar", "UTagVar"}
+NoHandler == {"URoot", "UChild", "ULeg", "ULegChild", "UPlain", "UInit", "Leaf", "AlgebraicLeaf", "QuotientBase",
+              "UPlain2", "ULegGrand", "ULegGrandD", "ULegChildPlain"}
+VarLike   == {"Variable", "UVar", "UTagVar", "MultiVectorVariable", "UMVTag"}
 \* fractions.Fraction is not among the constant types the mappers accept
 RECURSIVE HasFrac(_)
 HasFrac(v) ==
@@ -243,16 +300,21 @@ Predict(S, ev) ==
     CASE ev.op = "New" ->
            LET t == Norm(ev.spec) IN
            IF IsErr(t) THEN Res("err", 0, NoHash, t.s, 0, Proj(os))
+           \* an unpickled object starts without a cached hash, whatever happened to it in
+           \* the interpreter that pickled it
+           ELSE IF Bug = "PickleKeepsHash" /\ ev.md = "pkh"
+           THEN Res("new", 0, NoHash, "", 0,
+                    Proj(Append(os, [tree |-> t, hashed |-> 1, hk |-> 1, hid |-> ForeignHash(t)])))
            ELSE Res("new", 0, NoHash, "", 0, Proj(Append(os, FreshObj(t))))
       [] ev.op = "Hash" ->
-           LET os2 == WithHashed(os, {ev.i}) IN
+           LET os2 == WithHashed(S.cm, os, {ev.i}) IN
            Res("ok", 0, os2[ev.i].hid, "", 0, Proj(os2))
       [] ev.op = "Eq" ->
            Res("ok", B01(ImplEq(S, ev.i, ev.j)), NoHash, "", 0,
-               Proj(WithHashed(os, EqHashes(S, ev.i, ev.j))))
+               Proj(WithHashed(S.cm, os, EqHashes(S, ev.i, ev.j))))
       [] ev.op = "Ne" ->
            Res("ok", B01(~ImplEq(S, ev.i, ev.j)), NoHash, "", 0,
-               Proj(WithHashed(os, EqHashes(S, ev.i, ev.j))))
+               Proj(WithHashed(S.cm, os, EqHashes(S, ev.i, ev.j))))
       [] ev.op \in {"SetAttr", "DelAttr"} ->
            IF AttrRaises(os[ev.i].tree.cls, ev.fn)
            THEN Res("err", 0, NoHash, "FrozenInstanceError", 0, Proj(os))
@@ -264,7 +326,8 @@ Predict(S, ev) ==
                        Proj([os EXCEPT ![ev.i].tree.f[fi] = nv]))
       [] ev.op = "Copy" ->
            LET src == os[ev.i]
-               cp  == IF Bug = "CopyKeepsHash" THEN [src EXCEPT !.hk = src.hashed]
+               cp  == IF Bug = "CopyKeepsHash" \/ (Bug = "PickleKeepsHash" /\ ev.md = "pickle")
+                      THEN [src EXCEPT !.hk = src.hashed]
                       ELSE FreshObj(src.tree)
            IN Res("new", 0, NoHash, "", 0, Proj(Append(os, cp)))
       [] ev.op = "Replace" ->
@@ -289,20 +352,20 @@ Predict(S, ev) ==
            (CASE ev.md \in {"str", "repr", "deps"} -> Res("ok", 0, NoHash, "", 0, Proj(os))
               [] ev.md = "stock" -> IF ok THEN Res("same", 0, NoHash, "", 0, Proj(os)) ELSE er
               [] ev.md = "cim" ->
-                   Res(IF ok THEN "same" ELSE "err", 0, NoHash, "", 0, Proj(WithHashed(os, {ev.i})))
+                   Res(IF ok THEN "same" ELSE "err", 0, NoHash, "", 0, Proj(WithHashed(S.cm, os, {ev.i})))
               [] ev.md = "rebuild" ->
                    IF ~ok THEN er
                    ELSE IF Rebuilds(t)
                    THEN Res("new", 0, NoHash, "", 0, Proj(Append(os, FreshObj(t))))
                    ELSE Res("same", 0, NoHash, "", 0, Proj(os)))
       [] ev.op = "DictPut" ->
-           Res("ok", 0, NoHash, "", 0, Proj(WithHashed(os, {ev.i})))
+           Res("ok", 0, NoHash, "", 0, Proj(WithHashed(S.cm, os, {ev.i})))
       [] ev.op = "DictGet" ->
            \* a Python dict probes by hash, then identity, then ==
-           LET os2 == WithHashed(os, {ev.i})
+           LET os2 == WithHashed(S.cm, os, {ev.i})
                S2  == [S EXCEPT !.objs = os2]
                hits == { e \in 1..Len(S.dict) :
-                           /\ ImplHash(os2[S.dict[e].key]) = ImplHash(os2[ev.i])
+                           /\ ImplHash(S.cm, os2[S.dict[e].key]) = ImplHash(S.cm, os2[ev.i])
                            /\ ImplEq(S2, S.dict[e].key, ev.i) }
            IN Res("ok", 0, NoHash, "", IF hits = {} THEN -1
                   ELSE S.dict[CHOOSE e \in hits : \A e2 \in hits : e <= e2].v, Proj(os2))
@@ -326,7 +389,7 @@ Drift(S, ev, r) ==
 (***************************************************************************)
 (* The model as a state machine over the variables                         *)
 (***************************************************************************)
-ModelInit == objs = << >> /\ dict = << >> /\ last = [ev |-> EvNew(NoneV), chk |-> "OK", dev |-> ""]
+ModelInit == objs = << >> /\ dict = << >> /\ cmemo = {} /\ last = [ev |-> EvNew(NoneV), chk |-> "OK", dev |-> ""]
 
 (***************************************************************************)
 (* Named deviation (found by TLC on the model before any code ran): an     *)
@@ -356,13 +419,15 @@ ModelPost(S, ev, r) ==
                              ELSE IF r.proj[k].hashed = 1 THEN r.proj[k].h
                              ELSE IF old THEN S.objs[k].hid ELSE NoHash
                  IN [tree |-> r.proj[k].tree, hashed |-> r.proj[k].hashed, hk |-> hk, hid |-> hid]],
-     dict |-> IF ev.op = "DictPut" THEN DictAfterPut(S, ev.i, ev.v) ELSE S.dict]
+     dict |-> IF ev.op = "DictPut" THEN DictAfterPut(S, ev.i, ev.v) ELSE S.dict,
+     cm   |-> CmAfter(S, ev)]
 
 Step(ev) ==
     LET r == Predict(Cur, ev)
         n == ModelPost(Cur, ev, r)
     IN /\ objs' = n.objs
        /\ dict' = n.dict
+       /\ cmemo' = n.cm
        /\ last' = [ev |-> ev, chk |-> Check(Cur, ev, r),
                    dev |-> IF Dev_LegacyMutable(Cur, ev) THEN "Dev_LegacyMutable" ELSE ""]
 
@@ -375,6 +440,6 @@ DictFindsEqual  == Deviated \/ (DictKeysDistinctOn(Cur) /\ last.chk \notin {"Dic
 NeverStale      == Deviated \/ \A k \in 1..Len(objs) : objs[k].hashed = 1 => objs[k].hid = HashFn(objs[k].tree)
 NoSkipInModel   == last.chk # "SKIP"
 \* --- action properties ---------------------------------------------------
-Immutable  == [][Deviated' \/ \A k \in 1..Len(objs) : objs'[k].tree = objs[k].tree]_<<objs, dict, last>>
-HashStable == [][\A k \in 1..Len(objs) : objs[k].hk = 1 => objs'[k].hid = objs[k].hid]_<<objs, dict, last>>
+Immutable  == [][Deviated' \/ \A k \in 1..Len(objs) : objs'[k].tree = objs[k].tree]_<<objs, dict, last, cmemo>>
+HashStable == [][\A k \in 1..Len(objs) : objs[k].hk = 1 => objs'[k].hid = objs[k].hid]_<<objs, dict, last, cmemo>>
 =============================================================================
